@@ -393,4 +393,27 @@ def countCells (ok : Nat → Bool) (d : Nat → Nat) (p : Nat) : Nat → Nat
   | 0 => 0
   | n+1 => (if ok (d p) then 1 else 0) + countCells ok d (p+1) n
 
+/-! ## the same specs as functions on the LIST of cells of the declared extent -/
+
+/-- the `n` cells at `p`, as a list -/
+def cells (d : Nat → Nat) (p : Nat) : Nat → List Nat
+  | 0 => []
+  | n+1 => d p :: cells d (p+1) n
+
+theorem cells_length (d : Nat → Nat) (p n : Nat) : (cells d p n).length = n := by
+  induction n generalizing p with
+  | zero => rfl
+  | succ n ih => simp [cells, ih]
+
+theorem cells_getElem? (d : Nat → Nat) (p n i : Nat) (h : i < n) : (cells d p n)[i]? = some (d (p+i)) := by
+  induction n generalizing p i with
+  | zero => omega
+  | succ n ih =>
+    cases i with
+    | zero => simp [cells]
+    | succ i => simp only [cells, List.getElem?_cons_succ]; rw [ih (p+1) i (by omega)]; congr 2; omega
+
+/-- the C string in the extent: the cells before the first NUL -/
+def cstr (d : Nat → Nat) (p n : Nat) : List Nat := (cells d p n).takeWhile (· != 0)
+
 end SafeC
